@@ -89,7 +89,7 @@ const (
 type c19Point struct {
 	KeyType   string `json:"key_type"`
 	Policy    string `json:"policy"` // password | totp
-	Agent     string `json:"agent"`  // present | absent | nolifetime
+	Agent     string `json:"agent"`  // present | absent | nolifetime | foreign
 	AddGroups bool   `json:"add_groups"`
 	Ed25519CA bool   `json:"ed25519_ca"`
 }
@@ -134,7 +134,7 @@ func c19Points(tier string) ([]c19Point, error) {
 	var ps []c19Point
 	for _, kt := range kts {
 		for _, pol := range []string{"password", "totp"} {
-			for _, ag := range []string{"present", "absent", "nolifetime"} {
+			for _, ag := range []string{"present", "absent", "nolifetime", "foreign"} {
 				for _, g := range []bool{false, true} {
 					for _, e := range edcas {
 						ps = append(ps, c19Point{KeyType: kt, Policy: pol, Agent: ag, AddGroups: g, Ed25519CA: e})
@@ -333,8 +333,31 @@ func (a *c19Agent) Add(k agent.AddedKey) error {
 	return a.Agent.Add(k)
 }
 
+const c19ForeignComment = "someone-elses-key"
+
+// List: in mode "foreign" the agent already holds identities that are not the
+// client's: one of a key type the ssh library cannot parse (listed first) and
+// an ordinary key under another label (in the keyring).
+func (a *c19Agent) List() ([]*agent.Key, error) {
+	l, err := a.Agent.List()
+	if err != nil || a.mode != "foreign" {
+		return l, err
+	}
+	blob := ssh.Marshal(struct{ Algo, Body string }{"ssh-xmss@openssh.com", "opaque-key-material"})
+	return append([]*agent.Key{{Format: "ssh-xmss@openssh.com", Blob: blob, Comment: "hardware-xmss"}}, l...), nil
+}
+
 func c19StartAgent(scratch, mode string) (*c19Agent, error) {
 	a := &c19Agent{Agent: agent.NewKeyring(), mode: mode, path: filepath.Join(scratch, "agent.sock")}
+	if mode == "foreign" {
+		_, priv, err := ed25519.GenerateKey(rand.Reader)
+		if err != nil {
+			return nil, err
+		}
+		if err := a.Agent.Add(agent.AddedKey{PrivateKey: priv, Comment: c19ForeignComment}); err != nil {
+			return nil, err
+		}
+	}
 	ln, err := net.Listen("unix", a.path)
 	if err != nil {
 		return nil, err
@@ -1371,7 +1394,14 @@ func c19ClientRun(p c19Point, env *c19Env, run int) (*c19RunObs, []c19Viol, erro
 					expect[FilePrefix+"-ed25519-"+c19User] = cr.pub
 				}
 			}
+			if p.Agent == "foreign" && len(byComment[c19ForeignComment]) != 1 {
+				viols = append(viols, c19Viol{Key: "C19|agent-foreign-entry-lost|" + c19Label(c19ForeignComment, p),
+					What: fmt.Sprintf("after run %d the agent holds %d entries labelled %q, an identity the client did not install (want 1)", run, len(byComment[c19ForeignComment]), c19ForeignComment)})
+			}
 			for comment, ks := range byComment {
+				if comment == c19ForeignComment {
+					continue
+				}
 				if len(ks) > 1 {
 					viols = append(viols, c19Viol{Key: "C19|agent-accumulated|" + c19Label(comment, p),
 						What: fmt.Sprintf("after run %d the agent holds %d entries labelled %q (earlier certificates not replaced)", run, len(ks), comment)})
@@ -1636,7 +1666,7 @@ func init() {
 		ID:       "C19",
 		Property: "C19",
 		Level:    "model_checking",
-		Rule: "exhaustive product keyPreference(read from the real flag) x server certificate policy {password, TOTP} x agent {present, absent, present-but-refusing-lifetimes} x addGroups x run {first, second} " +
+		Rule: "exhaustive product keyPreference(read from the real flag) x server certificate policy {password, TOTP} x agent {present, absent, present-but-refusing-lifetimes, present-holding-foreign-identities (one of an unparsable key type listed first, one ordinary)} x addGroups x run {first, second} " +
 			"on the client's real setupCerts against the real keymasterd mux (child process, real TLS on loopback); states = client invocations, transitions = HTTP requests recorded; " +
 			"every request is recorded twice (RoundTripper level and plaintext written into the TLS connection) and expanded by all base64/base64url/hex/percent/PEM decodings two levels deep; " +
 			"a class is (configuration, run, outcome) where outcome = installed(agent entries, private files, certificates issued) or refused(request, status)",
@@ -1651,7 +1681,7 @@ func init() {
 		Bounds: func(tier string) map[string]interface{} {
 			kts, _ := c19KeyTypes()
 			ps, _ := c19Points(tier)
-			return map[string]interface{}{"key_types": kts, "policies": []string{"password", "totp"}, "agent_modes": []string{"present", "absent", "nolifetime"},
+			return map[string]interface{}{"key_types": kts, "policies": []string{"password", "totp"}, "agent_modes": []string{"present", "absent", "nolifetime", "foreign"},
 				"add_groups": []bool{false, true}, "runs_per_point": 2, "points": len(ps), "decode_depth": 2}
 		},
 		Shards: func(tier string) int { return 12 },
